@@ -1,5 +1,6 @@
 import Oracle.Proto
 import MV.Model.ActorSys
+import MV.Spec.ActorSys
 /-!
 Oracle suite `actorsys`: the Layer-2 model executes the same scenario/op lines as the real
 vivid.ActorSystem under the serialising scheduler (harness/suites/asys).
@@ -62,8 +63,9 @@ def behList (l : List (Nat × BehDef)) : List BehDef :=
   let mx := l.foldl (fun m p => max m p.1) 1
   (List.range (mx - 1)).map (fun i => ((l.lookup (i + 2)).getD {}))
 
-def nameOf (w : World) (a : Aid) : String :=
+def nameOf (_w : World) (a : Aid) : String :=
   if a == 1000000 then "nil"
+  else if a ≥ ghostBase then s!"g{a - ghostBase}"
   else toString a
 
 def nameOpt (w : World) : Option Aid → String
@@ -85,6 +87,17 @@ def fmtEntry (w : World) (e : LogEntry) : String := s!"{e.inc}/{fmtObs w e.obs}/
 
 def fmtDead (w : World) (d : Option Aid × Aid × UMsg) : String :=
   s!"{nameOpt w d.1}>{nameOf w d.2.1}:{fmtUMsg w d.2.2}"
+
+def fmtDirective : Directive → String
+  | .restart => "restart" | .stop => "stop" | .resume => "resume" | .escalate => "escalate"
+
+def fmtEvent (w : World) : Event → String
+  | .handled a inc obs s => s!"h:{a}:{inc}/{fmtObs w obs}/{nameOpt w s}"
+  | .failed a => s!"failed:{a}"
+  | .decided sup v d c => s!"decided:{sup}:{v}:{fmtDirective d}:{c}"
+  | .spawned p c => s!"spawned:{p}:{c}"
+  | .watch a t => s!"watch:{a}:{nameOf w t}"
+  | .unwatch a t => s!"unwatch:{a}:{nameOf w t}"
 
 def spaced (l : List String) : String := "[" ++ " ".intercalate l ++ "]"
 
@@ -149,7 +162,9 @@ def doStep (s : S) (toks : List String) : S × String :=
     match s.w with
     | none => (s, "bad-op")
     | some w =>
-      if w.crashed then (s, "crashed") else
+      if w.crashed then (s, "skipped") else
+      if w.timers ≠ [] && (toks.head? == some "spawn" || toks.head? == some "tell" || toks.head? == some "kill"
+          || toks.head? == some "shutdown" || toks.head? == some "run") then (s, "need-fire") else
       let ext (op : Op) : S × String :=
         let w' := step w op
         let (s1, g) := globalPart s w w'
@@ -169,7 +184,7 @@ def doStep (s : S) (toks : List String) : S × String :=
           | some a =>
             if ((w.actors[a]?).map (·.hasRunner)).getD false then
               let w' := step w (.run a)
-              if w'.crashed then ({ s with w := some w' }, "crashed") else
+              if w'.crashed then ({ s with w := some w' }, "fatal") else
               let (s1, p) := actorPart s w' a
               let (s2, g) := globalPart s1 w w'
               ({ s2 with w := some w' }, p ++ " " ++ g)
@@ -192,11 +207,116 @@ def doStep (s : S) (toks : List String) : S × String :=
           | some a => if a < 2 then (s, "[]") else if a < w.actors.length then (s, spaced (((w.actors[a]?).getD default).log.map (fmtEntry w))) else (s, "bad-op")
           | none => (s, "bad-op")
       | ["deadlog"] => (s, spaced (w.dead.map (fmtDead w)))
+      | ["events"] => (s, spaced ((w.events.filter (fun e => match e with
+          | .handled a _ _ _ => a ≥ 2      -- the guard and the subscription actor are not scripted
+          | .spawned _ c => c ≥ 2
+          | _ => true)).map (fmtEvent w)))
       | _ => (s, "bad-op")
 
 def model : Suite where
   σ := S
   init := {}
   step := doStep
+
+end Oracle.ActorSys
+
+/-! ## judges: the Spec checkers applied to the implementation's own event record -/
+namespace Oracle.ActorSys
+open MV.Model.ActorSys MV.Spec.ActorSys
+
+def parseName (s : String) : Option Nat :=
+  if s == "nil" then some 1000000
+  else if s.startsWith "g" then ((s.drop 1).toString.toNat?).map (ghostBase + ·)
+  else s.toNat?
+def parseSender (s : String) : Option (Option Nat) := if s == "nil" then some none else (parseName s).map some
+
+def parseObs (s : String) : Option Obs :=
+  match s.splitOn ":" with
+  | ["launch"] => some .launch | ["restarted"] => some .restarted | ["restarting"] => some .restarting
+  | ["terminate"] => some .terminate
+  | ["terminated", w] => (parseName w).map .terminated
+  | ["user", t] => t.toNat?.map .user
+  | ["dead", r, t] => do let r ← parseName r; let t ← t.toNat?; pure (.dead r t)
+  | _ => none
+
+def parseDirective' : String → Option Directive
+  | "restart" => some .restart | "stop" => some .stop | "resume" => some .resume
+  | "escalate" => some .escalate | _ => none
+
+def parseEvent (s : String) : Option Event :=
+  if s.startsWith "h:" then
+    match ((s.drop 2).toString).splitOn "/" with
+    | [ai, obs, snd] =>
+      match ai.splitOn ":" with
+      | [a, i] => do
+          let a ← a.toNat?; let i ← i.toNat?; let o ← parseObs obs; let sd ← parseSender snd
+          pure (.handled a i o sd)
+      | _ => none
+    | _ => none
+  else match s.splitOn ":" with
+    | ["failed", a] => a.toNat?.map .failed
+    | ["decided", sup, v, d, c] => do
+        let sup ← parseName sup; let v ← parseName v; let d ← parseDirective' d; let c ← c.toNat?
+        pure (.decided sup v d c)
+    | ["spawned", p, c] => do let p ← parseName p; let c ← c.toNat?; pure (.spawned p c)
+    | ["watch", w, t] => do let w ← w.toNat?; let t ← parseName t; pure (.watch w t)
+    | ["unwatch", w, t] => do let w ← w.toNat?; let t ← parseName t; pure (.unwatch w t)
+    | _ => none
+
+/-- `[a b c]` given as tokens `[a`, `b`, `c]` -/
+def unbracket (toks : List String) : List String :=
+  let s := " ".intercalate toks
+  if s.startsWith "[" && s.endsWith "]" then
+    ((((s.drop 1).dropEnd 1).toString).splitOn " ").filter (· ≠ "")
+  else []
+
+/-- final dump → (status, registered) per actor -/
+def parseDump (toks : List String) : List (Nat × String × Bool) :=
+  ((" ".intercalate toks).splitOn " | ").filterMap fun part =>
+    match part.splitOn "," with
+    | hd :: rest =>
+      match hd.splitOn ":" with
+      | [a, st] => a.toNat?.map fun a => (a, st, rest.contains "reg=1")
+      | _ => none
+    | [] => none
+
+/-- every mailbox is empty in the dump (the run was driven to quiescence) -/
+def dumpQuiescent (toks : List String) : Bool :=
+  ((" ".intercalate toks).splitOn " | ").all fun part => part.endsWith "q=0/0"
+
+structure JS where
+  evs : Option (List Event) := none
+
+def judgeWith (crashIsBad : Bool) (check : List Event → (Aid → Bool) → (Aid → Bool) → Bool → Option String) : Suite where
+  σ := JS
+  init := {}
+  step s toks :=
+    match toks.dropWhile (· ≠ "=>") with
+    | _ :: out =>
+      match toks.head? with
+      | some "events" =>
+        match (unbracket out).mapM parseEvent with
+        | some evs => ({ evs := some evs }, "ok")
+        | none => (s, "bad:unparsable-events")
+      | some "dump" =>
+        match s.evs with
+        | none => (s, "ok")
+        | some evs =>
+          let d := parseDump out
+          let alive (a : Aid) : Bool := d.any fun (a', st, _) => a' == a && st == "alive"
+          let gone (a : Aid) : Bool := d.any fun (a', st, reg) => a' == a && st == "terminated" && !reg
+          match check evs alive gone (dumpQuiescent out) with
+          | none => (s, "ok")
+          | some l => (s, "bad:" ++ l)
+      | _ => if crashIsBad && (out == ["fatal"] || out == ["hang"]) then (s, "bad:process-" ++ (out.headD "")) else (s, "ok")
+    | [] => (s, "bad-op")
+
+def judgeC03 : Suite := judgeWith false fun evs _ _ _ => c03 evs
+def judgeC04 : Suite := judgeWith true fun evs _ _ _ => (c04suspended evs).orElse fun _ => c04directive evs
+def judgeC05 : Suite := judgeWith false fun evs _ gone quiet =>
+  (c05order evs).orElse fun _ => if quiet then c05complete evs gone else none
+def judgeC06 : Suite := judgeWith false fun evs alive gone quiet =>
+  ((c06dup evs).orElse fun _ => c06unsolicited evs).orElse fun _ =>
+    if quiet then c06missing evs alive gone else none
 
 end Oracle.ActorSys
